@@ -165,6 +165,12 @@ def step : List String → String
       | some as => toHex (ElaVerif.Wire.encode ElaVerif.WireSchemas.addrMsg (ElaVerif.P2PCodec.addrVal as))
       | none => "bad-op"
     | none => "bad-op"
+  | ["rtx", st, magic, cmd, _seed, _idx, payload] => rtStep st magic cmd payload
+  | ["readc", st, magic, dflag, _chunk, stream] =>
+    -- how the connection cuts the stream into Reads is invisible to the reader
+    match stack? st, nat? magic, hexBytes? stream with
+    | some t, some m, some s => fmtOut (readMessage H t (decodeAny st dflag) m s)
+    | _, _, _ => "bad-op"
   | ["rtc", st, magic, cmd, _seed, payload] => rtStep st magic cmd payload
   | ["mrt", st, magic, _seed, _n, _mode, payload] => rtStep st magic "merkleblock" payload
   | _ => "bad-op"
